@@ -9,6 +9,7 @@ import (
 
 	"verifharness/codec"
 	"verifharness/hx"
+	"verifharness/wpaudio"
 )
 
 type enc struct{ e *rtpsimpleaudio.Encoder }
@@ -88,6 +89,9 @@ var Format = &codec.Format{
 func main() {
 	ctx := hx.Start("simpleaudio")
 	defer ctx.Finish()
+	if wpaudio.Replay(ctx, Format) {
+		return
+	}
 	Format.Run(ctx)
 	switch ctx.Prop {
 	case "C06":
